@@ -104,6 +104,31 @@ pub fn generate(rng: &mut Rng, thorough: bool, out: &mut Out) {
             }
         }
     }
+    // straight-angle vertices on axis-aligned edges: every cyclic rotation of the list, both windings,
+    // quarter turns, all four entry points
+    for kind in 0..3u64 {
+        for sub in [1usize, 3] {
+            let base = subdivided(kind, sub);
+            for quarter in 0..(if thorough { 4 } else { 2 }) {
+                for cw in [false, true] {
+                    for shift in 0..base.len() {
+                        let v = place_exact(&base, quarter, 0, Pt2::new(0.0, 0.0), cw, shift);
+                        let (q, r) = run2("tri2d", v.clone());
+                        out.case(q, r);
+                        let (q, r) = run2("tri2d_rev", v.clone());
+                        out.case(q, r);
+                        if shift % 3 == 0 {
+                            let ps: Vec<Pt3> = v.iter().map(|p| Pt3::new(p.x, p.y, 1.0)).collect();
+                            let (q, r) = run3("tri3d", ps.clone(), Pt3::new(0.0, 0.0, 1.0));
+                            out.case(q, r);
+                            let (q, r) = run3("tri3d_rev", ps, Pt3::new(0.0, 0.0, -1.0));
+                            out.case(q, r);
+                        }
+                    }
+                }
+            }
+        }
+    }
     // near-degenerate stream: grid outlines (vertices exactly on chords between other vertices)
     // rounded by an inexact rotation — the known limit of the floating-point ear test
     for i in 0..(if thorough { 400 } else { 40 }) {
